@@ -457,6 +457,8 @@ def _plainly_called(node: ast.Call) -> bool:
         len(largs.args) == len(node.args)
         and not any(isinstance(x, ast.Starred) for x in node.args)
         and len(node.keywords) == 0
+        # An assignment expression binds a name in the called lambda: its body is not moved out of it.
+        and not any(isinstance(n, ast.NamedExpr) for n in ast.walk(node.func.body))  # type: ignore
         and not (largs.posonlyargs or largs.kwonlyargs or largs.vararg or largs.kwarg)
     )
 
